@@ -174,12 +174,15 @@ func genCase(t *rapid.T) Case {
 	// an optional burst that fills one array input beyond ten entries
 	if rapid.IntRange(0, 3).Draw(t, "burst") == 0 {
 		n := rapid.IntRange(11, 14).Draw(t, "burstLen")
-		burst := []Op{{K: "create", A: joinTypeIndex(), B: 2}}
+		if rapid.IntRange(0, 7).Draw(t, "hugeBurst") == 0 {
+			n = rapid.IntRange(99, 130).Draw(t, "hugeBurstLen") // three-digit indices
+		}
+		burst := []Op{{K: "create", A: joinTypeIndex(), B: 2, C: 99}}
 		for i := 0; i < n; i++ {
-			burst = append(burst, Op{K: "create", A: stringParamIndex(), B: 2}, Op{K: "param", A: 0, B: 1, S: fmt.Sprintf("v%d", i)}, Op{K: "burstconnect"})
+			burst = append(burst, Op{K: "create", A: stringParamIndex(), B: 2, C: 99}, Op{K: "param", A: 0, B: 1, S: fmt.Sprintf("v%d", i)}, Op{K: "burstconnect"})
 		}
 		// ... and renders it through a text artifact, so a scrambled order is visible in the artifact too
-		burst = append(burst, Op{K: "create", S: "TextNodeData"}, Op{K: "bursttext"})
+		burst = append(burst, Op{K: "create", S: "TextNodeData", C: 99}, Op{K: "bursttext"})
 		pos := rapid.IntRange(0, len(ops)).Draw(t, "burstPos")
 		ops = append(append(append([]Op{}, ops[:pos]...), burst...), ops[pos:]...)
 	}
@@ -373,7 +376,7 @@ func runCase(c Case, o *vh.Obs) *vh.Failure {
 	for step, op := range c.Ops {
 		switch op.K {
 		case "create":
-			if len(ns) >= 18 {
+			if len(ns) >= 18 && op.C != 99 { // C == 99: part of an array-filling burst
 				continue
 			}
 			var ty string
@@ -654,6 +657,9 @@ func runCase(c Case, o *vh.Obs) *vh.Failure {
 	files, images := binaries()
 	if maxArr >= 11 {
 		o.Class("array-input>=11")
+	}
+	if maxArr >= 101 {
+		o.Class("array-input>=101")
 	}
 	if files+images >= 2 {
 		o.Class(">=2-binary-parameters")
